@@ -281,6 +281,78 @@ fn tiny_space(ctx: &Ctx, n: usize, max_tiny: usize) {
     );
 }
 
+/// entries of mixed magnitude (2^20 and 2^-20 next to +-1 and 0), every matrix; dyadic, so the exact determinant decides
+/// which members are nonsingular. Partial pivoting must keep the normwise backward error at rounding level whatever the
+/// magnitudes.
+fn mixed_space(ctx: &Ctx, n: usize) {
+    let big = (1u64 << 20) as f64;
+    let lf = [0.0, 1.0, -1.0, big, 1.0 / big];
+    // entries times 2^20 are integers: the determinant of the scaled matrix is an exact i128 (|.| < 2^123)
+    let li: [i128; 5] = [0, 1 << 20, -(1 << 20), 1 << 40, 1];
+    let len = pow(5, (n * n) as u32);
+    let rhs: Vec<Vec<f64>> = vec![vec![1.0; n], (0..n).map(|i| if i % 2 == 0 { 1.0 + i as f64 } else { -2.0 }).collect(), (0..n).map(|i| if i == 0 { big } else { 1.0 / big }).collect()];
+    ctx.lattice(
+        &format!("f64 n={} mixed-magnitude lattice: all matrices over {{0,1,-1,2^20,2^-20}} x 3 right-hand sides", n),
+        len,
+        |idx| {
+            let mut d = vec![0usize; n * n];
+            digits_uniform(idx, 5, &mut d);
+            format!("{:?}", d.iter().map(|&k| lf[k]).collect::<Vec<f64>>())
+        },
+        |idx, acc| {
+            let mut d = vec![0usize; n * n];
+            digits_uniform(idx, 5, &mut d);
+            let e = |i: usize, j: usize| li[d[i * n + j]];
+            let det: i128 = if n == 2 {
+                e(0, 0) * e(1, 1) - e(0, 1) * e(1, 0)
+            } else {
+                e(0, 0) * (e(1, 1) * e(2, 2) - e(1, 2) * e(2, 1)) - e(0, 1) * (e(1, 0) * e(2, 2) - e(1, 2) * e(2, 0)) + e(0, 2) * (e(1, 0) * e(2, 1) - e(1, 1) * e(2, 0))
+            };
+            if det == 0 {
+                return;
+            }
+            // exact infinity-norm condition number from the adjugate: members beyond 2^44 are singular to working precision
+            // (elimination meets an exactly zero pivot in f64) and are outside the claim, like exactly singular ones
+            let adj = |i: usize, j: usize| -> i128 {
+                // cofactor C_ji (adjugate entry (i, j)) of the scaled integer matrix
+                if n == 2 {
+                    let v = e(1 - j, 1 - i);
+                    if (i + j) % 2 == 0 { v } else { -v }
+                } else {
+                    let rs: Vec<usize> = (0..3).filter(|&r0| r0 != j).collect();
+                    let cs: Vec<usize> = (0..3).filter(|&c0| c0 != i).collect();
+                    let m = e(rs[0], cs[0]) * e(rs[1], cs[1]) - e(rs[0], cs[1]) * e(rs[1], cs[0]);
+                    if (i + j) % 2 == 0 { m } else { -m }
+                }
+            };
+            let norm_a = (0..n).map(|i| (0..n).map(|j| (e(i, j) as f64).abs()).sum::<f64>()).fold(0.0, f64::max);
+            let norm_adj = (0..n).map(|i| (0..n).map(|j| (adj(i, j) as f64).abs()).sum::<f64>()).fold(0.0, f64::max);
+            let cond = norm_a * norm_adj / (det as f64).abs();
+            if cond > (1u64 << 44) as f64 {
+                acc.hit("condition number beyond 2^44 (singular to working precision; skipped)");
+                return;
+            }
+            let af: F = (0..n).map(|i| (0..n).map(|j| lf[d[i * n + j]]).collect()).collect();
+            if d.iter().any(|&k| k == 3) && d.iter().any(|&k| k == 4) {
+                acc.nontriv("entries 2^40 apart in one matrix");
+            } else {
+                acc.nontriv("nonsingular member");
+            }
+            for b in rhs.iter() {
+                acc.hit("f64 solves (x2 solvers)");
+                let mut local = Acc::new("tmp");
+                let res = catch(|| check_f64(&af, b, false, Some(&mut local)));
+                acc.merge_worst(local);
+                match res {
+                    Ok(Ok(())) => {}
+                    Ok(Err(e)) => acc.fail(idx, format!("mixed A={:?} b={:?}", af, b), e),
+                    Err(p) => acc.fail(idx, format!("mixed A={:?} b={:?}", af, b), format!("unexpected panic: {}", p)),
+                }
+            }
+        },
+    );
+}
+
 // --- complex ---------------------------------------------------------------------------------------
 fn cletters(full: bool) -> Vec<(Cmplx, CQ)> {
     let c = |a: f64, b: f64| Cmplx::new(a, b);
@@ -516,6 +588,8 @@ fn main() {
     f64_int_space(&ctx, 3, z3(), "{0,1,-1}");
     tiny_space(&ctx, 2, 4);
     tiny_space(&ctx, 3, ctx.pick(2, 9));
+    mixed_space(&ctx, 2);
+    mixed_space(&ctx, 3);
     scaled_space(&ctx);
     {
         let letters = z3();
